@@ -4,7 +4,7 @@ CONSTANTS
   SHAPES <- Q_SHAPES
   RANKS = {1, 3}
   EPSEXP = {10, 4}
-  GUESS = {"none", "fresh", "reused"}
+  GUESS = {"none", "fresh", "reused", "zero"}
   SEEDS = {1}
   BACKENDS = {"py"}
   PREC = {"none", "c", "r"}
